@@ -25,13 +25,14 @@ def _find_method(tree, cls, name):
 
 
 def _is_density_loop(node):
+    """The level loop: a top-level `for ... in range(...)` whose body calls the node / number rule."""
     if not isinstance(node, ast.For):
         return False
     it = node.iter
     if not (isinstance(it, ast.Call) and isinstance(it.func, ast.Name) and it.func.id == 'range'):
         return False
-    src = ast.unparse(it)
-    return 'self.evolventDensity' in src
+    src = ast.unparse(node)
+    return '__CalculateNode' in src or '__CalculateNumbr' in src
 
 
 def _names_assigned(stmts):
@@ -53,7 +54,7 @@ def slice_evolvent(module, source_path):
         f = _find_method(tree, 'Evolvent', method_name)
         loops = [s for s in f.body if _is_density_loop(s)]
         if len(loops) != 1:
-            raise SliceError('%s: expected exactly one top-level loop over self.evolventDensity, found %d'
+            raise SliceError('%s: expected exactly one top-level level loop (calling the node rule), found %d'
                              % (method_name, len(loops)))
         loop = loops[0]
         if loop.orelse:
@@ -94,7 +95,7 @@ def slice_evolvent(module, source_path):
             body=init_body + [copy.deepcopy(ret)], decorator_list=[], type_params=[])
         n1 = [s for s in pre if isinstance(s, ast.If)]
         out['functions'].append({'method': 'Evolvent.' + method_name, 'lines': [f.lineno, f.end_lineno],
-                                 'loop_lines': [loop.lineno, loop.end_lineno], 'state': state_names,
+                                 'loop_lines': [loop.lineno, loop.end_lineno], 'loop_iter': ast.unparse(loop.iter), 'state': state_names,
                                  'args': argnames, 'post': [ast.unparse(s) for s in post],
                                  'n1_shortcut': [ast.unparse(s) for s in n1],
                                  'body_assigned': body_assigned})
